@@ -208,6 +208,30 @@ func c06(x *mon.Ctx) {
 			}
 		}
 	}
+	// nextUpdate written in every legal RFC 3339 spelling (Z, +00:00, a positive offset, a negative one with minutes, fractions):
+	// the same instant, the same boundary — also hours after it, where a reading that drops the offset would still accept
+	for di, doc := range []string{"tcbinfo-doc", "qeidentity-doc"} {
+		for style := 0; style < 6; style++ {
+			w := c06Build(k, r, map[string]world.Window{doc: {NotBefore: world.Far.NotBefore, NotAfter: E}})
+			if di == 0 {
+				w.Tcb.TimeStyle = style
+				w.TcbBody = world.SignedBody("tcbInfo", w.Tcb.JSON(), k.tcb)
+			} else {
+				w.Qe.TimeStyle = style
+				w.QeBody = world.SignedBody("enclaveIdentity", w.Qe.JSON(), k.qe)
+			}
+			g := []int{world.TTcbInfo, world.TQeIdentity}[di]
+			for _, d := range []struct {
+				name string
+				off  time.Duration
+				exp  string
+			}{{"1s-before", -sec, "accept"}, {"at", 0, "accept"}, {"1s-after", sec, "reject"}, {"1h-after", time.Hour, "reject"}, {"2h-minus-1s-after", 2*time.Hour - sec, "reject"}, {"9h30m-before", -(9*time.Hour + 30*time.Minute), "accept"}, {"10h-after", 10 * time.Hour, "reject"}} {
+				w2 := w.Clone()
+				w2.Times[g] = E.Add(d.off)
+				add(w2, world.LColl+(style+di)%2, "next-update-spelling/"+doc, fmt.Sprintf("style%d/%s", style, d.name), d.exp)
+			}
+		}
+	}
 	// a nextUpdate that is the zero instant of the time type (year 1, in any spelling), or no nextUpdate at all: a signed document
 	// that says it ran out in the year 1 has run out; "no end stated" is not a licence without end (the reference reads a missing
 	// member as unparsable)
@@ -315,6 +339,8 @@ func c06(x *mon.Ctx) {
 		x.Require("notbefore-boundary/"+role, 2, 1, 3)
 	}
 	x.Require("random-windows", 5, 100, 300)
+	x.Require("next-update-spelling/tcbinfo-doc", 18, 24, 42)
+	x.Require("next-update-spelling/qeidentity-doc", 18, 24, 42)
 	x.Require("next-update-zero-instant/tcbinfo-doc", 0, 36, 48)
 	x.Require("next-update-zero-instant/qeidentity-doc", 0, 36, 48)
 	x.Extra["exhaustive"] = true
